@@ -60,13 +60,16 @@ class Harness:
             # is not are the obligations of the path checked one by one
             if r.ctx.obligations:
                 s = z3.Solver()
-                s.set("timeout", 3000)
+                s.set("timeout", 1000)
                 for h in r.ctx.pc:
                     s.add(h)
                 path_ok = s.check() != z3.unsat
                 for o in r.ctx.obligations:
                     o.meta["cover_known"] = path_ok
                     o.meta["path_infeasible"] = not path_ok
+            else:
+                for o in r.ctx.obligations:
+                    o.meta["cover_known"] = True
             self.obligations.extend(r.ctx.obligations)
         return results
 
